@@ -1,0 +1,1 @@
+//! Hooks of group 'access' for the /verif machinery.
